@@ -5,7 +5,8 @@ import MaltModel.Proofs.FuncCheck
 
 `control_flow_correct`: for every program of the jump-free fragment (`AStmt`: assign / expression statement /
 pass / raise / `if` / `while` / `for` with the optional extra loop test / `return` at the top level of the
-function body; **no `try`/`with`** — not covered), every liveness annotation that is `LiveConsistent`, every
+function body / and, as pass-through statements whose blocks may contain all of these, `with` and
+`try` with `except E<tag>` handlers and `finally` — semantics of `Sem.withS` / `Sem.tryS`), every liveness annotation that is `LiveConsistent`, every
 `declared`/`undefined` satisfying the inclusions that `_get_block_vars` guarantees (`DeclB`, `DefB`), every
 external-call oracle, every fuel and every pair of initial states that agree on the variables live at entry:
 a terminating run of the source program (`Malt.Sem.execB` on the erased program) is matched by a run of the
@@ -32,8 +33,8 @@ theorem control_flow_correct (X : Ext) (p : ABlock) (D O : List Name) (hyp : Fun
     (n : Nat) (o : Out) (σ₁ : St) (h : execB X n (eraseB p) σ = some (o, σ₁)) :
     ∃ m σ₁', execNB X m (funcB p) σ' = some (o, σ₁') ∧ σ₁'.log = σ₁.log ∧ (o = .normal → Agree O σ₁ σ₁') := by
   obtain ⟨⟨m, σ₁', hx, hout⟩, _, _⟩ :=
-    (sim_all X n).2.1 p D O σ σ' o σ₁ hyp.live hyp.decl hyp.defd hyp.jump hag hb h
-  exact ⟨m, σ₁', hx, hout.1, hout.2⟩
+    (sim_all X n).2.1 p ExcCtx.top D O σ σ' o σ₁ hyp.live hyp.decl hyp.defd hyp.jump hag hb h
+  exact ⟨m, σ₁', hx, hout.1, hout.2.1⟩
 
 /-- The same, for a plain `Malt.Sem` program and a position-indexed annotation: whenever the program is in the
 fragment (`annotB` succeeds), `func ann p` is defined and simulates `p`. -/
@@ -55,6 +56,21 @@ theorem control_flow_correct_observe (X : Ext) (p : ABlock) (D : List Name) (hyp
   obtain ⟨o, σ₁⟩ := r
   obtain ⟨m, σ₁', hx, hl, _⟩ := control_flow_correct X p D [] hyp σ (TSt.ofSt σ) (agree_ofSt _ σ) hb n o σ₁ h
   exact ⟨m, (o, σ₁'), hx, by simp [hl]⟩
+
+/-- The same inside an arbitrary exception context `K` (e.g. for a block that is the body of an enclosing `try`):
+after an exception `e` the states also agree on what `K` says the handler / `finally` of `e` needs. -/
+theorem control_flow_correct_ctx (X : Ext) (K : ExcCtx) (p : ABlock) (D O : List Name)
+    (hl : LiveB K p O) (hd : DeclB p) (hf : DefB D p) (hj : retTopB p = true)
+    (σ : St) (σ' : TSt) (hag : Agree (blockIn p O) σ σ') (hb : BoundSub σ D)
+    (n : Nat) (o : Out) (σ₁ : St) (h : execB X n (eraseB p) σ = some (o, σ₁)) :
+    ∃ m σ₁', execNB X m (funcB p) σ' = some (o, σ₁') ∧ σ₁'.log = σ₁.log ∧ (o = .normal → Agree O σ₁ σ₁') ∧
+      (∀ e, o = .exc e → Agree (K.get e) σ₁ σ₁') := by
+  obtain ⟨⟨m, σ₁', hx, hout⟩, _, _⟩ := (sim_all X n).2.1 p K D O σ σ' o σ₁ hl hd hf hj hag hb h
+  exact ⟨m, σ₁', hx, hout.1, hout.2.1, hout.2.2⟩
+
+/-- `annotB` accepts every `Malt.Sem` program without `break`/`continue` — with or without `try`/`with`. -/
+theorem annotB_total_of_noJump (p : Block) (ann : Ann) (h : noJumpB p = true) : ∃ q, annotB ann 0 p = some q :=
+  annotB_total p ann 0 h
 
 /-- The executable checker of all hypotheses (run by the harness on the real annotations) is sound. -/
 theorem funcHyp_checker_sound (D : List Name) (p : ABlock) (O : List Name) (h : funcHyp D p O = true) :
@@ -151,6 +167,49 @@ def forProg : ABlock :=
 example : funcHyp ["xs"] forProg [] = true := by decide
 example : (execB X0 12 (eraseB forProg) (st [("xs", .list [1, 2, -1, 5])])).map (·.1) = some (.ret (.int 3)) := by decide
 example : (execNB X0 16 (funcB forProg) (TSt.ofSt (st [("xs", .list [1, 2, -1, 5])]))).map (·.1) = some (.ret (.int 3)) := by decide
+
+/-- Pass-through statements: `with` and `try / except E1 / finally` around functionalised conditionals; an
+explicit `raise` inside a generated `if_body` reaches the handler, which reads a variable assigned before the raise
+(so that variable is in the conditional's state tuple, not frame-local); the `finally` block reads nothing.
+```
+r = 0
+with cm(7):
+    try:
+        if c:
+            r = c + 1
+            raise E1
+        r = 5
+    except E1:
+        if r < 3: r = r * 10
+    finally:
+        pass
+return r
+``` -/
+def tryProg : ABlock :=
+  [ .assign {liveIn := ["c"], liveOut := ["c", "r"]} "r" (.const (.int 0)),
+    .withS {liveIn := ["c", "r"], liveOut := ["r"]} 7
+      [ .tryS {liveIn := ["c", "r"], liveOut := ["r"]}
+          [ .ifS {liveIn := ["c", "r"], liveOut := ["r"], definedIn := ["c", "r"], declared := ["r"], undefined := [], nouts := 1}
+              (.var "c")
+              [ .assign {liveIn := ["c"], liveOut := ["r"]} "r" (.bin .add (.var "c") (.const (.int 1))),
+                .raise {liveIn := ["r"], liveOut := ["r"]} 1 ]
+              [ .pass {liveIn := ["r"], liveOut := ["r"]} ],
+            .assign {liveIn := [], liveOut := ["r"]} "r" (.const (.int 5)) ]
+          [ (1, [ .ifS {liveIn := ["r"], liveOut := ["r"], definedIn := ["c", "r"], declared := ["r"], undefined := [], nouts := 1}
+                    (.bin .lt (.var "r") (.const (.int 3)))
+                    [ .assign {liveIn := ["r"], liveOut := ["r"]} "r" (.bin .mul (.var "r") (.const (.int 10))) ]
+                    [ .pass {liveIn := ["r"], liveOut := ["r"]} ] ]) ]
+          [ .pass {liveIn := ["r"], liveOut := ["r"]} ] ],
+    .ret {liveIn := ["r"], liveOut := []} (some (.var "r")) ]
+
+example : funcHyp ["c"] tryProg [] = true := by decide
+/-- c = 1: the body raises after `r = 2`, the handler makes it 20; c = 0: no raise, 5.  Same on both sides,
+including the enter/exit events of the `with`. -/
+example : (execB X0 10 (eraseB tryProg) (st [("c", .int 1)])).map (fun r => (r.1, r.2.log)) =
+    some (.ret (.int 20), [.enter 7, .exit 7]) := by decide
+example : (execNB X0 14 (funcB tryProg) (TSt.ofSt (st [("c", .int 1)]))).map (fun r => (r.1, r.2.log)) =
+    some (.ret (.int 20), [.enter 7, .exit 7]) := by decide
+example : (execNB X0 14 (funcB tryProg) (TSt.ofSt (st [("c", .int 0)]))).map (·.1) = some (.ret (.int 5)) := by decide
 
 /-- The theorem instantiated: every run of `loopProg` is matched. -/
 example (n : Int) (k : Nat) (r : Out × St) (h : execB X0 k (eraseB loopProg) (st [("n", .int n)]) = some r) :
@@ -313,6 +372,24 @@ theorem declared_needed :
         6 _ σ₁ hsrc
       have := execNB_det X0 hm htgt
       simp at this
+
+/-- (d) a `finally` block that reads a variable the `try` body assigns inside a conditional: an *implicit*
+exception raised before the assignment (here: the unbound `u` in the test) runs the `finally` block in a state the
+liveness annotation does not describe ("the CFG does not wire raise to finally") — `LiveConsistent` rejects the
+annotation (`K.other ⊆ liveIn` fails at the `if`), and indeed the results differ: the original reads the caller-visible
+`y = 1` in `finally`, the converted code …also does here; the point of the example is only that the checker
+refuses it, as the property text exempts such programs. -/
+def finallyReads : ABlock :=
+  [ .assign {liveIn := [], liveOut := ["u"]} "y" (.const (.int 1)),
+    .tryS {liveIn := ["u"], liveOut := []}
+      [ .ifS {liveIn := ["u"], liveOut := ["y"], definedIn := ["y"], declared := ["y"], undefined := [], nouts := 1}
+          (.var "u")
+          [ .assign {liveIn := [], liveOut := ["y"]} "y" (.const (.int 2)) ]
+          [ .assign {liveIn := [], liveOut := ["y"]} "y" (.const (.int 3)) ] ]
+      []
+      [ .expr {liveIn := ["y"], liveOut := []} (.var "y") ] ]
+
+example : liveConsistent finallyReads [] = false := by decide
 
 end Counter
 end Malt.Func
